@@ -352,3 +352,101 @@ def intest_as_out(r):
     """shape a result of the in-package harness like a walker.run reply (for oracle / replay)"""
     return {"trace": r.get("trace") or [], "completions": r.get("completions") or [], "err": r.get("err", "none"),
             "hang": (not r.get("returned")) and bool(r.get("deadlock")), "startedTwice": [], "maxCmds": 0}
+
+
+# ------------------------------------------------------------------------------------------------
+# CLI workspaces: generated targets whose commands append "s <name> <ns>" / "e <name> <ns>" lines
+# to an O_APPEND trace and fail according to flag files that are not declared inputs
+# ------------------------------------------------------------------------------------------------
+
+class CliWs:
+    """kinds: per node one of None | 'exit' | 'timeout' | 'missing' | 'check'; a node fails with its kind until
+    heal() creates its flag file. sleep: per node seconds of `sleep` inside the command."""
+
+    def __init__(self, ctx, name, n, edges, kinds=None, sleep=None, workers=2, dir_outputs=()):
+        self.grog = ctx.grog_binary()
+        self.d = ctx.scratch(name)
+        self.ws = os.path.join(self.d, "ws")
+        self.root = os.path.join(self.d, "root")
+        self.trace = os.path.join(self.d, "trace")
+        self.n, self.edges = n, edges
+        self.kinds = kinds or [None] * n
+        os.makedirs(os.path.join(self.ws, "pkg"), exist_ok=True)
+        os.makedirs(self.root, exist_ok=True)
+        with open(os.path.join(self.ws, "grog.toml"), "w") as fh:
+            fh.write(f"num_workers = {workers}\n")
+        ins = deps_of(n, edges)
+        targets = []
+        for i in range(n):
+            flag = os.path.join(self.d, f"flag{i}")
+            k = self.kinds[i]
+            gate, produce = "", f"cat {' '.join(f't{d}.out' for d in ins[i])} /dev/null > t{i}.out; echo t{i} >> t{i}.out"
+            t = {"name": f"t{i}", "dependencies": [f":t{d}" for d in ins[i]], "outputs": [f"t{i}.out"]}
+            if i in dir_outputs:
+                t["outputs"] = [f"dir::d{i}", f"t{i}.out"]
+                produce += f"; mkdir -p d{i}; echo one > d{i}/one.txt"
+            if k == "exit":
+                gate = f"test -f {flag} || exit 3; "
+            elif k == "timeout":
+                gate = f"test -f {flag} || exec sleep 30; "
+                t["timeout"] = "300ms"
+            elif k == "missing":
+                produce = f"if test -f {flag}; then {produce}; fi"
+            elif k == "check":
+                t["output_checks"] = [{"command": f"test -f {flag}"}]
+            sl = f"sleep {sleep[i]}; " if sleep and sleep[i] else ""
+            t["command"] = (f'echo "s {i} $(date +%s%N)" >> {self.trace}; {gate}{sl}{produce}; '
+                            f'echo "e {i} $(date +%s%N)" >> {self.trace}')
+            targets.append(t)
+        with open(os.path.join(self.ws, "pkg", "BUILD.json"), "w") as fh:
+            json.dump({"targets": targets}, fh)
+
+    def env(self, extra=None):
+        env = dict(os.environ, GROG_ROOT=self.root, HOME=self.d, GROG_DISABLE_TEA="true")
+        env.pop("CI", None)
+        if extra:
+            env.update(extra)
+        return env
+
+    def heal(self, nodes=None):
+        for i in (range(self.n) if nodes is None else nodes):
+            open(os.path.join(self.d, f"flag{i}"), "w").close()
+
+    def read_trace(self, clear=True):
+        ev = []
+        if os.path.exists(self.trace):
+            for line in open(self.trace):
+                p = line.split()
+                if len(p) == 3:
+                    ev.append((p[0], int(p[1]), int(p[2])))
+            if clear:
+                os.remove(self.trace)
+        return ev
+
+    def build(self, args=("//...",), flags=(), timeout=120):
+        t0 = time.time()
+        try:
+            p = subprocess.run([self.grog, "build", *flags, *args], cwd=self.ws, env=self.env(), capture_output=True, text=True, timeout=timeout)
+            rc, out = p.returncode, p.stdout + p.stderr
+        except subprocess.TimeoutExpired as e:
+            rc, out = 124, ((e.stdout or b"").decode(errors="replace") if isinstance(e.stdout, bytes) else (e.stdout or "")) + "\nTIMEOUT"
+        return {"rc": rc, "out": out, "wall": time.time() - t0, "trace": self.read_trace()}
+
+    def target_cache_entries(self):
+        n = 0
+        for root, dirs, files in os.walk(self.root):
+            if os.path.basename(root) == "target" and os.path.basename(os.path.dirname(root)) == "cache":
+                n += len(files)
+                for d in dirs:
+                    n += sum(len(f) for _, _, f in os.walk(os.path.join(root, d)))
+                dirs[:] = []
+        return n
+
+    def cleanup(self):
+        import shutil
+        shutil.rmtree(self.d, ignore_errors=True)
+
+
+def failed_labels(out):
+    import re
+    return sorted({int(m.group(1)) for m in re.finditer(r"Target //pkg:t(\d+) failed", out)})
